@@ -23,21 +23,19 @@ import vf
 PID = "C18"
 TRACE_CFG = "SPECIFICATION Spec\nCONSTANTS\n  Relax = {%s}\nPOSTCONDITION Post\nCHECK_DEADLOCK FALSE\n"
 
-# diagnosis: (relaxations switched off together, predicate name), tried in this order
-WATCH_ALL = ("watch-order", "watch-listing", "watch-done", "read-after-event")
-RELAX = [
-    (("watch-order-xrestore",), "WatchOrdered.pre-restore-event"),
-    (("watch-order-dup",), "WatchOrdered.repeated-or-stale-event"),
-    (("watch-order", "watch-done"), "WatchOrdered"),
-    (("watch-listing",), "WatchListingComplete"),
-    (("watch-done",), "WatchComplete"),
-    (("read-after-event",), "ReadAfterEventMonotone"),
-    (WATCH_ALL, "Watch.several"),
-    (WATCH_ALL + ("read",), "Linearizable-read"),
-    (WATCH_ALL + ("list",), "Linearizable-list"),
-    (WATCH_ALL + ("listowner",), "Linearizable-listowner"),
-    (WATCH_ALL + ("snapshot",), "Linearizable-snapshot"),
-]
+# relaxation name (Relax constant of ResourceStoreTrace) -> predicate it switches off
+PRED = {
+    "watch-order-xrestore": "WatchOrdered.pre-restore-event",
+    "watch-order-dup": "WatchOrdered.repeated-or-stale-event",
+    "watch-order": "WatchOrdered",
+    "watch-listing": "WatchListingComplete",
+    "watch-done": "WatchComplete",
+    "read-after-event": "ReadAfterEventMonotone",
+    "stall": "Progress",
+    "read": "Linearizable-read", "list": "Linearizable-list", "listowner": "Linearizable-listowner", "snapshot": "Linearizable-snapshot",
+}
+# the two narrow WatchOrdered relaxations of the first (batch) pass; events that needed one are printed as WEAK
+TOLERANT = ("watch-order-xrestore", "watch-order-dup")
 DOC = {
     "Linearizable": "the recorded concurrent history of WriteCAS/DeleteCAS (+reads) has a linearization accepted by "
                     "ResourceStore!Apply: ok iff (absent and version \"\") or (same uid and stored version = presented), "
@@ -91,6 +89,8 @@ def split_histories(rows):
 
 
 def run_tlc(rows, relax=(), timeout=900, coverage=False):
+    """One TLC run decides all histories in rows (one initial state each).
+    Returns (TLCResult, accepted history numbers, {history number: events consumed}, WEAK marks per history number)."""
     text = "".join(json.dumps(r, separators=(",", ":"), sort_keys=True) + "\n" for r in rows)
     cfg = TRACE_CFG % ", ".join('"%s"' % x for x in relax)
     r = vf.tlc("ResourceStoreTrace", "rt.cfg", workers=1, timeout=timeout, deque=True, heap="4g",
@@ -98,66 +98,122 @@ def run_tlc(rows, relax=(), timeout=900, coverage=False):
     if r.rc != 0:
         raise vf.Infra("ResourceStoreTrace failed rc=%s (not a verdict)\n%s" % (r.rc, r.out[-3000:]))
     acc = set(int(x) for x in re.findall(r'<<"ACCEPT", (\d+)>>', r.out))
-    alldone = '<<"ALLDONE"' in r.out
-    m = re.search(r'<<"HWM", (\d+)>>', r.out)
-    hwm = int(m.group(1)) if m else None
-    return r, acc, alldone, hwm
+    hwm = {int(a): int(b) for a, b in re.findall(r'<<"HWM", (\d+), (\d+)>>', r.out)}
+    hnos = [x["h"] for x in rows if x.get("e") == "reset"]
+    if sorted(hwm) != sorted(hnos):
+        raise vf.Infra("ResourceStoreTrace did not report every history (%s vs %s)\n%s" % (sorted(hwm), sorted(hnos), r.out[-2000:]))
+    # WEAK marks carry absolute line numbers: map them to histories
+    owner, cur = [], None
+    for x in rows:
+        if x.get("e") == "reset":
+            cur = x["h"]
+        owner.append(cur)
+    weak = {}
+    for ln, nm in re.findall(r'<<"WEAK", (\d+), "([^"]+)">>', r.out):
+        weak.setdefault(owner[int(ln) - 1], set()).add(nm)
+    return r, acc, hwm, weak
+
+
+def candidates(stuck, events):
+    """relaxations that can explain the event TLC could not get past (tried in this order)"""
+    e = stuck.get("e")
+    if e == "wev":
+        if stuck.get("ph") == "live" and stuck.get("kind") in ("upsert", "delete"):
+            return [("watch-order-xrestore",), ("watch-order-dup",), ("watch-order", "watch-done"), ("watch-listing",)]
+        return [("watch-listing",)]
+    if e == "wrd":
+        return [("read-after-event",)]
+    if e == "wdone":
+        return [("watch-done",)]
+    if e == "stall":
+        return [("stall",)]
+    if e == "ret":
+        inv = next((x for x in events if x.get("e") == "inv" and x.get("id") == stuck.get("id")), None)
+        if inv and inv["op"]["t"] in ("read", "list", "listowner", "snapshot"):
+            return [(inv["op"]["t"],)]
+    return []
+
+
+def name_failure(events, consumed, relax=()):
+    """NAME what a history TLC rejected violates (the rejection itself is already TLC's verdict): greedily switch
+    off the check that explains the event the search could not get past and let TLC decide again, until it accepts.
+    An accepting relaxed run has checked everything else in the history."""
+    h = events[0]["h"]
+    first = consumed
+    relax, states, done = list(relax), 0, False
+    for _ in range(8):
+        stuck = events[consumed]
+        progressed = False
+        for c in candidates(stuck, events):
+            if set(c) <= set(relax):
+                continue
+            r2, acc2, hwm2, _ = run_tlc(events, relax=relax + list(c))
+            states += r2.distinct
+            if h in acc2 or hwm2[h] > consumed:
+                relax += [x for x in c if x not in relax]
+                done, consumed, progressed = h in acc2, hwm2[h], True
+                break
+        if done or not progressed:
+            break
+    preds = [PRED[x] for x in relax if not (x == "watch-done" and "watch-order" in relax)]
+    if not done:
+        preds.append("Linearizable")
+    return {"h": h, "events": events, "stuck": events[first], "stuck_index": first + 1, "preds": preds, "fully_explained": done}, states
 
 
 def validate(rows, timeout=900):
-    """TLC decides every history in rows. Returns (accepted ids, failures, static rejects, distinct states)."""
+    """TLC decides every history in rows.
+    Run A: all histories, strict.  Those not accepted are violations; the rest of the function only NAMES them:
+    Run B: the rejected ones with the two narrow WatchOrdered relaxations (WEAK marks say which one a branch needed),
+    then per history greedy naming for whatever is still rejected.
+    Returns (accepted ids, failures, static rejects, distinct states)."""
     hs = split_histories(rows)
-    accepted, failures, statics, states = [], [], [], 0
-    i = 0
-    while i < len(hs):
-        batch = [e for h in hs[i:] for e in h]
-        r, acc, alldone, hwm = run_tlc(batch, timeout=timeout)
-        states += r.distinct
-        for line, names in r.rejects:
-            hdr = batch[line - 1]
-            statics.append((hdr["h"], names))
-        if alldone:
-            accepted += [h[0]["h"] for h in hs[i:]]
-            break
-        if hwm is None:
-            raise vf.Infra("ResourceStoreTrace printed neither ALLDONE nor HWM\n%s" % r.out[-2000:])
-        # the history containing the first event TLC could not consume
-        pos, j = 0, i
-        while j < len(hs) and pos + len(hs[j]) < hwm:
-            pos += len(hs[j])
-            j += 1
-        if j >= len(hs):
-            raise vf.Infra("HWM %d beyond the trace (%d events) without ALLDONE" % (hwm, len(batch)))
-        for k in range(i, j):
-            if hs[k][0]["h"] not in acc:
-                raise vf.Infra("history %s before the high-water mark was not accepted" % hs[k][0]["h"])
-            accepted.append(hs[k][0]["h"])
-        stuck = hs[j][hwm - pos - 1]
-        failures.append({"h": hs[j][0]["h"], "events": hs[j], "stuck": stuck, "stuck_index": hwm - pos})
-        i = j + 1
+    if not hs:
+        return [], [], [], 0
+    failures, statics = [], []
+    r, acc, hwm, _ = run_tlc(rows, timeout=timeout)
+    states = r.distinct
+    for line, names in r.rejects:
+        statics.append((rows[line - 1]["h"], names))
+    accepted = [h[0]["h"] for h in hs if h[0]["h"] in acc]
+    rej = [h for h in hs if h[0]["h"] not in acc]
+    if rej:
+        rb, accb, hwmb, weak = run_tlc([e for h in rej for e in h], relax=TOLERANT, timeout=timeout)
+        states += rb.distinct
+        for h in rej:
+            hn = h[0]["h"]
+            first = hwm[hn]
+            if hn in accb:
+                marks = sorted(weak.get(hn, ()))
+                if len(marks) > 1:
+                    # both narrow relaxations were used on some branch: is one alone enough?
+                    for m in marks:
+                        r1, acc1, _, _ = run_tlc(h, relax=(m,), timeout=timeout)
+                        states += r1.distinct
+                        if hn in acc1:
+                            marks = [m]
+                            break
+                failures.append({"h": hn, "events": h, "stuck": h[first], "stuck_index": first + 1,
+                                 "preds": [PRED[m] for m in marks] or ["WatchOrdered"], "fully_explained": True})
+            else:
+                base = [m for m in TOLERANT if m in weak.get(hn, ())]
+                f, st = name_failure(h, hwmb[hn] if base else first, relax=base)
+                f["stuck"], f["stuck_index"] = h[first], first + 1
+                states += st
+                failures.append(f)
     return accepted, failures, statics, states
-
-
-def diagnose(events):
-    """Name the predicate a rejected history violates: the first relaxation under which TLC accepts it.
-    (an accepting relaxed run has checked everything else in the history)"""
-    for rl, name in RELAX:
-        _, _, alldone, _ = run_tlc(events, relax=rl)
-        if alldone:
-            return name
-    return "Linearizable"
 
 
 def confirm_unpruned(events, timeout=600):
     """Safeguard against an unsound search reduction: re-decide a rejected history with the reductions
-    switched off (Relax "full-search" only removes pruning, it relaxes no check)."""
+    switched off (Relax "full-search" relaxes no check)."""
     try:
-        _, _, alldone, _ = run_tlc(events, relax=("full-search",), timeout=timeout)
+        _, acc, _, _ = run_tlc(events, relax=("full-search",), timeout=timeout)
     except vf.Infra as ex:
         if "timeout" in str(ex):
             return "timeout"
         raise
-    return "accepted" if alldone else "rejected"
+    return "accepted" if events[0]["h"] in acc else "rejected"
 
 
 def stuck_kind(ev, events):
@@ -220,7 +276,7 @@ def run(tier):
 
         # ---- B: record concurrent histories from the real backends (race detector on)
         jobs, first = [], 0
-        tot = {"histories": 0, "events": 0, "ops": 0, "watch_events": 0, "watches": 0, "restores": 0, "classes": {}, "max_pending": 0}
+        tot = {"histories": 0, "events": 0, "ops": 0, "watch_events": 0, "watches": 0, "restores": 0, "stalls": 0, "classes": {}, "max_pending": 0}
         files = []
         with cf.ThreadPoolExecutor(max_workers=plan["par"]) as ex:
             futs = []
@@ -235,7 +291,7 @@ def run(tier):
             for out, backend, f in futs:
                 stx = f.result()
                 files.append((out, backend))
-                for k in ("histories", "events", "ops", "watch_events", "watches", "restores"):
+                for k in ("histories", "events", "ops", "watch_events", "watches", "restores", "stalls"):
                     tot[k] += stx[k]
                 tot["max_pending"] = max(tot["max_pending"], stx["max_pending"])
                 for k, v in stx["classes"].items():
@@ -243,6 +299,7 @@ def run(tier):
 
         # ---- TLC decides every history
         n_acc = n_cont = states = 0
+        pred_hits = {}
         by_backend = {}
         samples = []
         fails = []
@@ -269,14 +326,21 @@ def run(tier):
                                     {"kind": "res-history", "backend": backend, "seed": seed, "events": ev})
                 for fl in failures:
                     fails.append((backend, fl))
+        known = {f["sig"] for f in vf.load_findings() if f.get("property") == PID and f.get("status") == "known"}
         for backend, fl in fails:
-            pred = diagnose(fl["events"])
             sk = stuck_kind(fl["stuck"], fl["events"])
-            verdict.add("%s:%s:%s" % (PID, pred, sk),
-                        "history %d (%s backend): TLC finds no linearization / watch explanation past event %d %s ; violated predicate: %s"
-                        % (fl["h"], backend, fl["stuck_index"], json.dumps(fl["stuck"], sort_keys=True)[:400], pred),
-                        {"kind": "res-history", "backend": backend, "seed": seed, "predicate": pred, "stuck_index": fl["stuck_index"],
-                         "events": fl["events"]})
+            sigs = ["%s:%s:%s" % (PID, p, sk) for p in fl["preds"]]
+            if any(sg not in known for sg in sigs):
+                # about to raise an alarm: make sure it is not an artefact of the search reductions
+                if confirm_unpruned(fl["events"]) == "accepted":
+                    raise vf.Infra("history %d (%s) is rejected by the pruned search but accepted by the full search: "
+                                   "unsound reduction in ResourceStoreTrace (not a verdict)" % (fl["h"], backend))
+            for p, sg in zip(fl["preds"], sigs):
+                pred_hits[p] = pred_hits.get(p, 0) + 1
+                verdict.add(sg, "history %d (%s backend): TLC finds no linearization / watch explanation past event %d %s ; violated predicate: %s"
+                            % (fl["h"], backend, fl["stuck_index"], json.dumps(fl["stuck"], sort_keys=True)[:400], p),
+                            {"kind": "res-history", "backend": backend, "seed": seed, "predicates": fl["preds"],
+                             "stuck_index": fl["stuck_index"], "events": fl["events"]})
 
         # ---- vacuity
         cl = tot["classes"]
@@ -287,7 +351,7 @@ def run(tier):
             raise vf.Infra("vacuous run: never exercised %s" % empty)
         cov_zero = []
         if tier == "thorough" and files:
-            r, _, alldone, _ = run_tlc(vf.read_ndjson(files[len(files) // 2][0]), coverage=True)
+            r, _, _, _ = run_tlc(vf.read_ndjson(files[len(files) // 2][0]), relax=TOLERANT, coverage=True)
             cov_zero = [x for x in r.coverage_zero if x in ("Lin", "Inv", "Ret", "WOpen", "WEv", "WRd", "WDone", "Reset", "Finish")]
             if cov_zero:
                 raise vf.Infra("vacuous trace validation: actions never taken %s" % cov_zero)
@@ -314,6 +378,8 @@ def run(tier):
             "samples": samples,
             "predicates": sorted(DOC), "predicate_doc": DOC,
             "known_findings_matched": verdict.known_hit,
+            "rejected_histories_by_predicate": pred_hits,
+            "stalled_histories": tot.get("stalls", 0),
             "race_detector": "on (go build -race); no report",
             "exhaustive": False,
         }
@@ -325,38 +391,62 @@ def run(tier):
         shutil.rmtree(work, ignore_errors=True)
 
 
+def describe(fl):
+    return "+".join(fl["preds"]) + ":" + stuck_kind(fl["stuck"], fl["events"])
+
+
 def replay(path):
-    """The replay of a recorded concurrency violation is the recorded history itself: TLC re-decides it."""
+    """The replay of a recorded-concurrency violation is the recorded history itself: TLC re-decides it.
+    A finding with a deterministic script ("scenario") is first re-executed against the current tree."""
     rp = json.load(open(path))
-    ev = rp["replay"]["events"]
-    accepted, failures, statics, _ = validate(ev)
-    bad = 0
-    for hno, names in statics:
-        print("history %s: recorded history violates %s" % (hno, names))
-        bad += 1
-    for fl in failures:
-        pred = diagnose(fl["events"])
-        print("history %s rejected: no linearization past event %d %s ; predicate %s" % (
-            fl["h"], fl["stuck_index"], json.dumps(fl["stuck"], sort_keys=True)[:300], pred))
-        bad += 1
-    if bad:
-        print("VIOLATION property=%s replay=%s" % (PID, path))
-        return 1
-    print("replay accepted: %d events" % len(ev))
-    return 0
+    rep = rp.get("replay", rp)
+    work = vf.new_scratch("verif-c18-replay-")
+    try:
+        if rep.get("scenario"):
+            binary = vf.build("h-res", race=True)
+            out = os.path.join(work, "sc.ndjson")
+            p = vf.run_harness(binary, ["-backend", rep.get("backend", "store"), "-scenario", rep["scenario"], "-out", out], timeout=600)
+            if p.returncode != 0:
+                raise vf.Infra("h-res scenario failed: %s" % p.stderr[-2000:])
+            ev = vf.read_ndjson(out)
+            print("re-executed scenario %s on backend %s: %d events" % (rep["scenario"], rep.get("backend", "store"), len(ev)))
+        else:
+            ev = rep["events"]
+        accepted, failures, statics, _ = validate(ev)
+        bad = 0
+        for hno, names in statics:
+            print("history %s: recorded history violates %s" % (hno, names))
+            bad += 1
+        for fl in failures:
+            print("history %s rejected by TLC: no linearization / watch explanation past event %d %s ; violated: %s" % (
+                fl["h"], fl["stuck_index"], json.dumps(fl["stuck"], sort_keys=True)[:300], fl["preds"]))
+            bad += 1
+        if bad:
+            print("VIOLATION property=%s replay=%s" % (PID, path))
+            return 1
+        print("replay accepted: %d events" % len(ev))
+        return 0
+    finally:
+        shutil.rmtree(work, ignore_errors=True)
 
 
 def selftest():
-    """Binding demonstration: corrupt one recorded field of a good history; TLC must reject it."""
+    """Binding demonstration: corrupt one recorded field of a history TLC accepts; TLC must reject it."""
     binary = vf.build("h-res", race=True)
     work = vf.new_scratch("verif-c18-self-")
     try:
-        out = os.path.join(work, "s.ndjson")
-        record(binary, "store", vf.seed(), 1, 60, 0, out)
-        rows = vf.read_ndjson(out)
-        acc, fl, stc, _ = validate(rows)
-        if fl or stc:
-            print("selftest: baseline history not accepted")
+        rows = None
+        for i in range(12):
+            out = os.path.join(work, "s%d.ndjson" % i)
+            record(binary, "inmem", vf.seed() + 7 * i, 1, 60, 0, out)
+            cand = vf.read_ndjson(out)
+            acc, fl, stc, _ = validate(cand)
+            if not fl and not stc and any(x.get("e") == "wev" and x.get("ph") == "live" for x in cand) \
+                    and any(x.get("e") == "inv" and x["op"]["t"] == "write" and x["res"]["t"] == "err" for x in cand):
+                rows = cand
+                break
+        if rows is None:
+            print("selftest: no accepted baseline history found")
             return 2
         results = {}
         # (i) flip a CAS failure into a success
@@ -364,21 +454,28 @@ def selftest():
         e = next(x for x in c1 if x.get("e") == "inv" and x["op"]["t"] == "write" and x["res"]["t"] == "err")
         e["res"] = {"t": "ok", "e": "", "rs": [{"k": e["op"]["k"], "uid": e["op"]["uid"], "ver": "9999", "d": e["op"]["d"], "own": e["op"]["own"]}]}
         _, f1, _, _ = validate(c1)
-        results["cas-failure-flipped-to-success"] = [diagnose(x["events"]) + ":" + stuck_kind(x["stuck"], x["events"]) for x in f1]
-        # (ii) a watcher receives a stale event (previous live event repeated)
+        results["cas-failure-flipped-to-success"] = [describe(x) for x in f1]
+        # (ii) a watcher receives its last live event twice
         c2 = json.loads(json.dumps(rows))
         lives = [i for i, x in enumerate(c2) if x.get("e") == "wev" and x.get("ph") == "live" and x.get("kind") in ("upsert", "delete")]
-        if lives:
-            c2.insert(lives[-1] + 1, dict(c2[lives[-1]]))
-            _, f2, _, _ = validate(c2)
-            results["watch-event-repeated"] = [diagnose(x["events"]) + ":" + stuck_kind(x["stuck"], x["events"]) for x in f2]
-        # (iii) the post-event read returns nothing although the resource exists
+        c2.insert(lives[-1] + 1, dict(c2[lives[-1]]))
+        _, f2, _, _ = validate(c2)
+        results["watch-event-repeated"] = [describe(x) for x in f2]
+        # (iii) the read made after an event returns a version that never existed / is older
         c3 = json.loads(json.dumps(rows))
         w = next((x for x in c3 if x.get("e") == "wrd" and x["res"]["t"] == "ok"), None)
         if w:
             w["res"] = {"t": "ok", "e": "", "rs": [dict(w["res"]["rs"][0], ver="0")]}
             _, f3, _, _ = validate(c3)
-            results["post-event-read-older"] = [diagnose(x["events"]) + ":" + stuck_kind(x["stuck"], x["events"]) for x in f3]
+            results["post-event-read-older"] = [describe(x) for x in f3]
+        # (iv) an initial listing loses one resource
+        c4 = json.loads(json.dumps(rows))
+        wd = next((x for x in c4[0]["watches"] if x["snap"]), None)
+        if wd:
+            gone = wd["snap"].pop()
+            c4 = [x for x in c4 if not (x.get("e") == "wev" and x.get("wid") == wd["wid"] and x.get("ph") == "snap" and x.get("r") and x["r"][0] == gone)]
+            _, f4, _, _ = validate(c4)
+            results["listing-incomplete"] = [describe(x) for x in f4]
         print(json.dumps(results, indent=1))
         ok = all(results.values())
         os.makedirs(os.path.join(vf.VERIF, "evidence", "selftest"), exist_ok=True)
